@@ -808,6 +808,9 @@ def run_config(task):
             t.add('fork_kill_replays')
             if code != 77:
                 bad('conformance', 'fork-kill child did not reach the crash point', 77, code, {'point': i})
+            elif i not in snaps:
+                bad('conformance', 'crash point of the re-run has no counterpart in the in-process run',
+                    'the same sequence of events in both runs', 'point %d of %d' % (i, len(snaps)), {'point': i})
             elif real != snaps[i]:
                 bad('conformance', 'directory after a real kill differs from the in-process snapshot',
                     {k: (v[0], len(v[1])) for k, v in snaps[i].items()},
